@@ -1,4 +1,4 @@
-"""C05 -- moving definitions and modules keeps importers working (structural clauses R05.1-R05.7)."""
+"""C05 -- moving definitions and modules keeps importers working (structural clauses R05.1-R05.12)."""
 from __future__ import annotations
 
 import ast
@@ -21,7 +21,11 @@ EXPLANATION = (
     "changes package -- a moved module, the modules inside a moved package, a module turned into a package, moved "
     "code -- passes through relatives_to_absolutes before it is announced.  R05.6: the move of the resource itself "
     "is announced on every path (up to the same-project test).  R05.7 (splice integrity): text spliced into the "
-    "destination keeps the whole destination text (source[:c] + x + source[c:] with one and the same c)."
+    "destination keeps the whole destination text (source[:c] + x + source[c:] with one and the same c).  R05.8 (=R07.7) and R05.9: the "
+    "import-insertion helper every move uses identifies a from-import by (module, level) and tests 'already provided by "
+    "an existing import' on dotted names with the trailing dot.  R05.10: a from-import's module_name is compared with an "
+    "absolute module name only under a test of its level.  R05.11: an effectful per-statement step is never short-circuited by "
+    "the flag it accumulates.  R05.12: module-ness of a renamed name is decided on the object, not on the kind of the name."
 )
 ASSUMPTIONS = [
     "helper summaries: self.m() resolves through the class MRO; x.y.m() is attributed to every method m of the analysed modules",
@@ -91,6 +95,11 @@ def _node_calls(nd) -> List[ast.Call]:
 
 
 def check(ctx, res) -> None:
+    _check_main(ctx, res)
+    _shared(ctx, res)
+
+
+def _check_main(ctx, res) -> None:
     idx = ctx.idx
     for m in MODULES:
         idx.need_unit(m)
@@ -346,6 +355,42 @@ def check(ctx, res) -> None:
             f"the import list added to the moved code does not derive from {sorted(missing)}: the moved definition loses "
             + ("the modules its body uses (NameError at the destination)" if "origin-imports" in missing else
                "the names it used from the module it came from (helpers defined next to it)"), function=mc.qualname)
+    # which names go into the back-import: everything of the origin that the moving code does not define itself; a name
+    # may be left out only on evidence from the moving code or from the import statements that are copied along
+    back = [c for c in calls_in(mc.node) if call_name(c) == "get_from_import" and len(c.args) >= 2]
+    for c in back:
+        src_expr = c.args[1]
+        comp = None
+        if isinstance(src_expr, ast.Name):
+            for x in walk_local(mc.node):
+                if isinstance(x, ast.Assign) and isinstance(x.targets[0], ast.Name) and x.targets[0].id == src_expr.id:
+                    comp = x.value
+        else:
+            comp = src_expr
+        if not isinstance(comp, (ast.ListComp, ast.SetComp, ast.GeneratorExp)) or len(comp.generators) != 1 or \
+                not (isinstance(comp.generators[0].iter, ast.Name) and comp.generators[0].iter.id in origin):
+            res.undecided("R05.4", "moving_code_with_imports|back-names", f"{mc.unit.rel}:{c.lineno}",
+                          "the back-import name list is not a single comprehension over the origin module")
+            continue
+        elt = comp.generators[0].target.id if isinstance(comp.generators[0].target, ast.Name) else None
+        conds = []
+        for i in comp.generators[0].ifs:
+            conds += list(i.values) if isinstance(i, ast.BoolOp) and isinstance(i.op, ast.And) else [i]
+        moving_vars = {x.targets[0].id for x in walk_local(mc.node) if isinstance(x, ast.Assign) and isinstance(x.targets[0], ast.Name)
+                       and isinstance(x.value, ast.Call) and call_name(x.value) == "get_string_module"}
+        allowed_roots = moving_vars | {v for v, t in taint.items() if "origin-imports" in t}
+        foreign = []
+        for cnd in conds:
+            okc = isinstance(cnd, ast.Compare) and len(cnd.ops) == 1 and isinstance(cnd.ops[0], ast.NotIn) and isinstance(cnd.left, ast.Name) \
+                and cnd.left.id == elt and any(isinstance(y, ast.Name) and y.id in allowed_roots for y in ast.walk(cnd.comparators[0]))
+            if not okc:
+                foreign.append(cnd)
+        res.add("R05.4", "moving_code_with_imports|back-names", not foreign, f"{mc.unit.rel}:{comp.lineno}",
+                "a name of the origin is left out of the back-import only when the moving code defines it (or a copied import provides it)" if not foreign else
+                f"the back-import leaves out names of the origin module on the condition `{ast.unparse(foreign[0])}`, which is evidence neither from the "
+                "moving code nor from the import statements copied with it: a name the origin binds some other way (an import inside try/except or "
+                "if/else, which is not a copied top-level import statement) reaches the moved code by neither route (NameError at the destination)",
+                function=mc.qualname)
     # the destination adds the list it is given
     n4 = 1
     for f in sorted(mv_funcs, key=lambda f: f.qualname):
@@ -449,3 +494,118 @@ def _is_eq_source(t: ast.AST, var: Optional[str]) -> bool:
     is_var = lambda e: isinstance(e, ast.Name) and e.id == var
     is_src = lambda e: is_self_attr(e, "source")
     return (is_var(a) and is_src(b)) or (is_var(b) and is_src(a))
+
+
+def _shared(ctx, res) -> None:
+    # R05.8 (=R07.7): clients get their new import through add_import; two from-imports are the same only with the same level
+    from .c07 import _from_import_identity_rule
+    from .common import prefix_boundary_rule
+
+    _from_import_identity_rule(ctx, res, "R05.8")
+    # R05.9: "an existing import already provides the new one" is a test on dotted names
+    prefix_boundary_rule(ctx, res, "R05.9", ["rope.refactor.importutils.actions.AddingVisitor.visitNormalImport"])
+    # R05.10: a from-import's module_name is relative text when level > 0; comparing it with an ABSOLUTE dotted name is
+    # only meaningful where the level has been tested (or the import has been resolved to a resource instead)
+    idx = ctx.idx
+    n10 = 0
+    for f in sorted((f for f in idx.functions.values() if f.unit.modname == MOVE), key=lambda f: f.qualname):
+        cfg = None
+        k = 0
+        for x in walk_local(f.node):
+            if not (isinstance(x, ast.Compare) and len(x.ops) == 1 and isinstance(x.ops[0], (ast.Eq, ast.NotEq))):
+                continue
+            a, b = x.left, x.comparators[0]
+            is_mn = lambda e: isinstance(e, ast.Attribute) and e.attr == "module_name"
+            if is_mn(a) == is_mn(b):
+                continue
+            other = b if is_mn(a) else a
+            if isinstance(other, ast.Constant):
+                continue
+            n10 += 1
+            k += 1
+            cfg = cfg or CFG(f.node)
+            ok = any(any(isinstance(y, ast.Attribute) and y.attr == "level" for y in ast.walk(t))
+                     for nd in cfg.node_containing(x) for t, pol in cfg.guards(nd.id))
+            res.add("R05.10", f"{_short(f)}|level-blind#{k}", ok, f"{f.unit.rel}:{x.lineno}",
+                    "the comparison with an absolute module name is made only where the import's level has been tested" if ok else
+                    f"{_short(f)} compares a from-import's module_name with the absolute name `{ast.unparse(other)}` without looking at .level: a client "
+                    "that imports the source module relatively (`from .src import f`) is not recognised, keeps its stale import after the move and "
+                    "fails with ImportError when it is imported", function=f.qualname)
+    res.floor("R05.10", "module_name comparisons with absolute names in move.py", n10, 2)
+
+    # R05.11: `flag = flag or step(...)` inside a loop skips step() for every later element once the flag is set; if
+    # step() edits the statements it is given, the later ones are left stale.  The effectful call must come first.
+    mods = [f for f in idx.functions.values() if f.unit.modname in MODULES or f.unit.modname.startswith("rope.refactor.importutils")]
+    by_name: Dict[str, List[FuncInfo]] = {}
+    for f in mods:
+        by_name.setdefault(f.name, []).append(f)
+
+    def effectful(g: FuncInfo) -> bool:
+        ps = set(param_names(g.node)[1:] if g.cls is not None else param_names(g.node))
+        for x in walk_local(g.node):
+            if isinstance(x, (ast.Assign, ast.AugAssign)):
+                for t in (x.targets if isinstance(x, ast.Assign) else [x.target]):
+                    if isinstance(t, (ast.Attribute, ast.Subscript)) and isinstance(t.value, ast.Name) and t.value.id in ps:
+                        return True
+            if isinstance(x, ast.Call) and isinstance(x.func, ast.Attribute) and isinstance(x.func.value, ast.Name) and x.func.value.id in ps \
+                    and (x.func.attr.startswith(("add", "empty", "remove", "append", "insert", "set_", "filter")) or x.func.attr in ("clear", "pop", "extend")):
+                return True
+        return False
+
+    n11 = 0
+    for f in sorted(mods, key=lambda f: f.qualname):
+        for lp in [x for x in walk_local(f.node) if isinstance(x, (ast.For, ast.While))]:
+            for st in [y for s_ in lp.body for y in [s_, *walk_local(s_)]]:
+                if not (isinstance(st, ast.Assign) and len(st.targets) == 1 and isinstance(st.targets[0], ast.Name)
+                        and isinstance(st.value, ast.BoolOp) and isinstance(st.value.op, ast.Or)):
+                    continue
+                flag = st.targets[0].id
+                vals = st.value.values
+                calls = [(i, v) for i, v in enumerate(vals) if isinstance(v, ast.Call)]
+                flags = [i for i, v in enumerate(vals) if isinstance(v, ast.Name) and v.id == flag]
+                if not calls or not flags:
+                    continue
+                for i, c in calls:
+                    gs = [g for g in by_name.get(call_name(c), []) if (g.cls is not None) == isinstance(c.func, ast.Attribute)]
+                    if not gs or not any(effectful(g) for g in gs):
+                        continue
+                    n11 += 1
+                    ok = i < min(flags)
+                    res.add("R05.11", f"{_short(f)}|accumulate:{call_name(c)}", ok, f"{f.unit.rel}:{st.lineno}",
+                            "the effectful step is evaluated before the accumulated flag" if ok else
+                            f"{_short(f)} accumulates `{flag} = {ast.unparse(st.value)}` inside a loop: once {flag} is true the call to {call_name(c)} "
+                            "(which edits the import statement it is given) is short-circuited for every later statement, so a second stale "
+                            "import of the moved module in the same client is left as it was", function=f.qualname)
+    res.floor("R05.11", "flag-accumulating effectful steps in loops", n11, 1)
+
+    # R05.12: whether a rename is the rename of a module is a fact about the OBJECT the name denotes (a from-imported or
+    # aliased module is not an ImportedModule pyname), decided against the module base class
+    rm = idx.need_func("rope.refactor.rename.Rename._is_renaming_a_module")
+    base = "rope.base.pyobjects.AbstractModule"
+    idx.need_class(base)
+    rets = [x for x in walk_local(rm.node) if isinstance(x, ast.Return) and x.value is not None]
+    ok12 = bool(rets)
+    why = "no return value"
+    for r in rets:
+        tests = [y for y in ast.walk(r.value) if isinstance(y, ast.Call) and call_name(y) == "isinstance" and len(y.args) == 2]
+        good = False
+        for t in tests:
+            on_object = any(isinstance(y, ast.Call) and call_name(y) == "get_object" for y in ast.walk(t.args[0]))
+            if not on_object and isinstance(t.args[0], ast.Name):
+                on_object = any(isinstance(x, ast.Assign) and isinstance(x.targets[0], ast.Name) and x.targets[0].id == t.args[0].id
+                                and any(isinstance(y, ast.Call) and call_name(y) == "get_object" for y in ast.walk(x.value)) for x in walk_local(rm.node))
+            ks = t.args[1].elts if isinstance(t.args[1], ast.Tuple) else [t.args[1]]
+            quals = [idx.resolve(rm.unit.modname, k) for k in ks]
+            covers = base in quals or {"rope.base.pyobjects.PyModule", "rope.base.pyobjects.PyPackage"} <= set(quals) or \
+                {"rope.base.pyobjectsdef.PyModule", "rope.base.pyobjectsdef.PyPackage"} <= set(quals)
+            if on_object and covers:
+                good = True
+            elif not on_object:
+                why = f"`{ast.unparse(t)}` tests the kind of the NAME, not the object it denotes"
+            else:
+                why = f"`{ast.unparse(t)}` does not cover every module class"
+        ok12 = ok12 and good
+    res.add("R05.12", "Rename._is_renaming_a_module|object-not-name", ok12, rm.where,
+            "module-ness is decided on get_object() against the module base class" if ok12 else
+            f"Rename._is_renaming_a_module: {why}: a rename started on a module bound by `from pkg import mod` (an ImportedName whose object is a "
+            "module) rewrites every importer but never moves the file, so every importer fails with ModuleNotFoundError", function=rm.qualname)
